@@ -289,3 +289,21 @@ PLANS['C13']['thorough'] = PLANS['C13']['thorough'] + [CHAIN_T, LITERALS_Q]
 
 
 PLANS['C09'] = {'quick': [ALL_D2, OPERANDS_Q, PROTO_Q, PLACEMENT_Q, TRANSFORM_Q], 'thorough': [ALL_D2, OPERANDS_Q, CONTEXTS_Q, PROTO_T, PLACEMENT_Q, PLACEMENT_T, TRANSFORM_Q]}
+
+
+# print_js
+from scenario import PrintScenario
+
+_prev_make6 = make_scenario
+
+
+def make_scenario(name, args):
+    if name == 'print':
+        return PrintScenario(args.get('max_len', 24))
+    return _prev_make6(name, args)
+
+
+PRINT_Q = dict(scenario='print', args=dict(max_len=24), label='print_js: print_comments x superseded comment present/absent x map empty/non-empty; code = pre ++ "//" ++ comment ++ post with |pre| <= 24, |post| <= 4, comment = "# sourceMappingURL=" ++ tail (|tail| <= 3, no line break), |map| <= 6; str::replace = str.replace_all, base64 uninterpreted; decided by cvc5')
+PLANS['C10'] = {'quick': [EXTRACT_Q, CHAIN_Q, PRINT_Q], 'thorough': [EXTRACT_T, CHAIN_T, PRINT_Q]}
+PLANS['C13']['quick'] = PLANS['C13']['quick'] + [PRINT_Q]
+PLANS['C13']['thorough'] = PLANS['C13']['thorough'] + [PRINT_Q]
